@@ -354,10 +354,40 @@ def stalled_drain(seed, proto):
     b = Builder(proto, rng)
     b.preamble()
     b.op(op="quiesce")
+    pols = [POL_IDEM, POL_NONIDEM, POL_CONN, {"policy": {"retries": 1, "lifetime_ms": 2000}}]
+    if rng.random() < 0.25:
+        # a caller gives up: the link is up, the console stops reading, send() calls pile up suspended in
+        # drain(); the application cancels one or two of them (asyncio.timeout around the call); the stall
+        # ends.  Every call that returned normally is owed its frame, a cancelled one is owed nothing.
+        b.op(op="resolve", how="ok")
+        b.op(op="quiesce")
+        if rng.random() < 0.5:
+            b.send(POL_IDEM)
+            b.op(op="quiesce")
+        if rng.random() < 0.5:
+            b.op(op="pause")
+        else:
+            b.op(op="arm_pause", nth=rng.randrange(1, 4))
+        ids = []
+        for _ in range(rng.randrange(2, 5)):
+            ids.append(b.send(rng.choice([POL_IDEM, POL_IDEM, POL_NONIDEM])))
+            b.op(op="step", k=rng.randrange(1, 4))
+        for cid in rng.sample(ids, rng.randrange(1, min(3, len(ids)))):
+            b.op(op="cancel", id=cid)
+            b.op(op="step", k=rng.randrange(1, 4))
+            if rng.random() < 0.5:
+                b.send(POL_IDEM)
+                b.op(op="step", k=rng.randrange(1, 4))
+        if rng.random() < 0.3:
+            b.op(op="advance", by=rng.choice([500, 1125]))
+        b.op(op="resume")
+        b.op(op="quiesce")
+        b.heal()
+        b.shutdown()
+        return b.script, {"enc": b.enc, "blockers": [], "proto": proto, "profile": "stalled_drain_cancel", "seed": seed}
     if rng.random() < 0.4:
         b.op(op="resolve", how="refuse")
         b.op(op="quiesce")
-    pols = [POL_IDEM, POL_NONIDEM, POL_CONN, {"policy": {"retries": 1, "lifetime_ms": 2000}}]
     for _ in range(rng.randrange(2, 9)):
         b.send(rng.choice(pols))
         if rng.random() < 0.5:
